@@ -357,14 +357,23 @@ def check(model, rep, tier):
                     c_.func.attr != ts.name]
   lv_ok = False
   for fi_ in where:
+    # (iteration variable, region in which it is tested): a for statement, or a
+    # generator of a comprehension (`any(qn in l.targets for l in ...)`)
+    loops_ = []
     for lp_ in ast.walk(fi_.node):
-      if isinstance(lp_, ast.For) and isinstance(lp_.target, ast.Name) and tpl.xnorm(
-          fi_, lp_.iter, lp_.iter) == 'self.state[_Comprehension]':
-        tv_ = lp_.target.id
-        for x in ast.walk(lp_):
+      if isinstance(lp_, ast.For):
+        loops_.append((lp_.target, lp_.iter, lp_))
+      elif isinstance(lp_, (ast.GeneratorExp, ast.ListComp, ast.SetComp)):
+        for gen_ in lp_.generators:
+          loops_.append((gen_.target, gen_.iter, lp_))
+    for tgt_, it_, region_ in loops_:
+      if isinstance(tgt_, ast.Name) and tpl.xnorm(
+          fi_, it_, it_) == 'self.state[_Comprehension]':
+        tv_ = tgt_.id
+        for x in ast.walk(region_):
           if isinstance(x, ast.Compare) and len(x.ops) == 1 and isinstance(
-              x.ops[0], ast.In) and isinstance(x.left, ast.Name) and tpl.xnorm(
-                  fi_, x.comparators[0], x) == tv_ + '.targets':
+              x.ops[0], ast.In) and isinstance(x.left, ast.Name) and tv_ + '.targets' in (
+                  core.norm(x.comparators[0]), tpl.xnorm(fi_, x.comparators[0], x)):
             lv_ok = True
   rep.check(lv_ok, 'CTX-TABLE', '%s:every-comprehension-level' % ts.site,
             'whether a name is bound by a comprehension is decided over every '
@@ -459,6 +468,105 @@ def check(model, rep, tier):
               'annotations and defaults belong to the defining scope, the '
               'parameter declarations to the function\'s own (isolated) scope',
               line=h.node.lineno)
+
+  # what a lambda passes on to the calling statement: the free names of the
+  # lambda's own (isolated) scope -- everything the parameters, the body and
+  # the scopes nested in them read, minus everything they bind.  The handler's
+  # scope stack is followed symbolically (enter pushes, exit pops and returns).
+  hl = cls.methods['visit_Lambda']
+  stack, env, tags, kinds_ = ['outer'], {}, {}, {'outer': None}
+  export = []
+
+  def _scope_of(e):
+    t_ = core.norm(e)
+    if t_ == 'self.scope':
+      return stack[-1]
+    if isinstance(e, ast.Name):
+      return env.get(e.id)
+    if isinstance(e, ast.Call) and core.dotted(e.func) == 'anno.getanno' and len(e.args) >= 2:
+      return tags.get((core.norm(e.args[0]), core.norm(e.args[1])))
+    return None
+
+  def _call(c_):
+    f_ = core.norm(c_.func)
+    if f_ == 'self._enter_scope':
+      sid = 's%d' % len(kinds_)
+      a0 = c_.args[0] if c_.args else next(
+          (k.value for k in c_.keywords if k.arg == 'isolated'), None)
+      kinds_[sid] = a0.value if isinstance(a0, ast.Constant) else None
+      stack.append(sid)
+      return None
+    if f_ in ('self._exit_and_record_scope', 'self._exit_scope'):
+      if len(stack) < 2:
+        raise core.AnalysisError('visit_Lambda: scope stack underflow')
+      sid = stack.pop()
+      if f_.endswith('record_scope') and c_.args:
+        tg = c_.args[1] if len(c_.args) > 1 else next(
+            (k.value for k in c_.keywords if k.arg == 'tag'), None)
+        tags[(core.norm(c_.args[0]), core.norm(tg) if tg is not None
+              else 'anno.Static.SCOPE')] = sid
+      return sid
+    return None
+
+  def _diff(e):
+    """(scope of the read set, scope of the bound set) of `A.read - B.bound`"""
+    if isinstance(e, ast.Name) and e.id in env and isinstance(env[e.id], tuple):
+      return env[e.id]
+    if isinstance(e, ast.BinOp) and isinstance(e.op, ast.Sub) and isinstance(
+        e.left, ast.Attribute) and isinstance(e.right, ast.Attribute) and \
+        e.left.attr == 'read' and e.right.attr == 'bound':
+      return (_scope_of(e.left.value), _scope_of(e.right.value))
+    if isinstance(e, ast.Call) and isinstance(e.func, ast.Attribute) and \
+        e.func.attr == 'difference' and len(e.args) == 1 and isinstance(
+            e.func.value, ast.Attribute) and e.func.value.attr == 'read' and \
+        isinstance(e.args[0], ast.Attribute) and e.args[0].attr == 'bound':
+      return (_scope_of(e.func.value.value), _scope_of(e.args[0].value))
+    return None
+
+  def _walk(stmts):
+    for st in stmts:
+      if isinstance(st, (ast.With, ast.If)):
+        if isinstance(st, ast.If) and any(
+            isinstance(c_, ast.Call) and core.norm(c_.func) in (
+                'self._enter_scope', 'self._exit_and_record_scope', 'self._exit_scope')
+            for c_ in ast.walk(st)):
+          raise core.AnalysisError('visit_Lambda: scopes entered or left conditionally')
+        if isinstance(st, ast.With):
+          _walk(st.body)
+        continue
+      val = getattr(st, 'value', None)
+      res = None
+      calls_ = [c_ for c_ in core.preorder(st) if isinstance(c_, ast.Call)]
+      for c_ in calls_:
+        r_ = _call(c_)
+        if c_ is val:
+          res = r_
+      if isinstance(st, ast.Assign) and len(st.targets) == 1 and isinstance(
+          st.targets[0], ast.Name):
+        if res is None and val is not None:
+          res = _scope_of(val) or _diff(val)
+        env[st.targets[0].id] = res
+      # the export: <outer>.read.update(D) / <outer>.read |= D
+      if isinstance(st, ast.Expr) and isinstance(val, ast.Call) and isinstance(
+          val.func, ast.Attribute) and val.func.attr == 'update' and isinstance(
+              val.func.value, ast.Attribute) and val.func.value.attr == 'read' and val.args:
+        export.append((_scope_of(val.func.value.value), _diff(val.args[0]), st))
+      if isinstance(st, ast.AugAssign) and isinstance(st.op, ast.BitOr) and isinstance(
+          st.target, ast.Attribute) and st.target.attr == 'read':
+        export.append((_scope_of(st.target.value), _diff(st.value), st))
+  _walk(hl.node.body)
+  iso_ = [k for k, v in kinds_.items() if v is True]
+  ok = len(export) == 1 and len(iso_) == 1 and stack == ['outer'] and \
+      export[0][0] == 'outer' and export[0][1] == (iso_[0], iso_[0])
+  rep.check(ok, 'PARAMS', '%s:lambda-exports-its-free-names' % hl.site,
+            'a lambda is assumed to be called where it is defined: the calling '
+            'statement reads the free names of the lambda\'s own isolated scope '
+            '(read minus bound of that one scope, after it was closed) -- not of '
+            'the body scope or the parameter scope alone, which miss the names a '
+            'nested scope binds or reads',
+            {'export': [(a, b) for a, b, _ in export], 'isolated': iso_},
+            line=hl.node.lineno,
+            witness='lambda: [i for i in xs]  /  lambda: (lambda k: k + y)')
 
   # a statement's scope annotation is written once: a second record under the
   # same tag on the same node replaces the statement's scope by another one
